@@ -961,10 +961,13 @@ func (s *dsim) probeDeadBatch(b *bk, bt dbm.Batch, state string, alsoClose bool)
 		}
 		if err == nil {
 			s.fail(b, "dead-batch-accepts-"+pr.name, true, "%s on a %s batch returned nil; the contract says it will error", pr.name, state)
-			// pebble recycles closed batches through a sync.Pool: make sure the one we
-			// touched is not handed to anybody (two GC cycles empty the pool)
-			runtime.GC()
-			runtime.GC()
+			if b.name == "pebbledb" {
+				// harness safety, not an oracle: pebble recycles closed batches through a
+				// sync.Pool; make sure the one just touched is never handed to anybody
+				// (two GC cycles empty the pool)
+				runtime.GC()
+				runtime.GC()
+			}
 			break
 		}
 	}
